@@ -644,6 +644,122 @@ theorem getCFilter_ok (hs : Hashing) (s : State) (c : Call) (hne : 1 ≤ s.chain
     exact hst.2 (c.target, fid) (lookup_mem hl)
   · rw [he]; exact afterMiss_ok hs s c hne hst
 
+/-! ### the database layer with concurrent writers, cache fills -/
+
+theorem netBranch_eq (hs : Hashing) (s : State) (c : Call) : netBranch hs s c = afterMiss hs s c := rfl
+
+theorem mem_dbCommit : ∀ (ws db : List (Nat × Nat)) (p : Nat × Nat), p ∈ dbCommit db ws → p ∈ db ∨ p ∈ ws := by
+  intro ws
+  induction ws with
+  | nil => intro db p h; exact Or.inl h
+  | cons w ws ih =>
+    intro db p h
+    simp only [dbCommit] at h
+    rcases ih _ p h with h1 | h1
+    · rcases mem_dbPut h1 with h2 | h2
+      · exact Or.inr (by rw [h2]; exact List.mem_cons_self)
+      · exact Or.inl h2
+    · exact Or.inr (List.mem_cons_of_mem _ h1)
+
+/-- decoded inside the read transaction, the value is the snapshot's, whatever is committed afterwards -/
+theorem dbFetch_inTx (g : Nat → Nat) (db ws : List (Nat × Nat)) (k : Nat) : dbFetch true g db ws k = lookup db k := by
+  unfold dbFetch
+  cases lookup db k <;> simp
+
+theorem goodB_iff (hs : Hashing) (fhs : List Nat) (b f : Nat) : goodB hs fhs b f = true ↔ Good hs fhs b f := by
+  simp [goodB, Good, and_assoc]
+
+theorem getCFilterW_ok (g : Nat → Nat) (hs : Hashing) (s : State) (c : Call) (ws : List (Nat × Nat))
+    (hne : 1 ≤ s.chain.fhs.length) (hst : StoreOk hs s.chain.fhs s.store)
+    (hws : ∀ p ∈ ws, Good hs s.chain.fhs p.1 p.2) :
+    StoreOk hs s.chain.fhs (getCFilterW true g hs s c ws).st.store ∧
+    (∀ fid, (getCFilterW true g hs s c ws).result = .ret fid → Good hs s.chain.fhs c.target fid) ∧
+    (getCFilterW true g hs s c ws).st.chain = s.chain := by
+  unfold getCFilterW
+  cases hreg : c.regular with
+  | false => exact ⟨hst, fun fid h => by simp at h, rfl⟩
+  | true =>
+    simp only [Bool.true_eq_false, ↓reduceIte, dbFetch_inTx]
+    have hitems := @GetBlock.spec_get_items s.store.cache c.target
+    have hval := @GetBlock.spec_get_val s.store.cache c.target
+    generalize s.store.cache.step (.get c.target) = p at hitems hval
+    obtain ⟨c', o⟩ := p
+    simp only at hitems hval
+    have hst1 : StoreOk hs s.chain.fhs { s.store with cache := c', db := dbCommit s.store.db ws } :=
+      ⟨fun e he => hst.1 e (hitems e he), fun q hq => by
+        rcases mem_dbCommit ws s.store.db q hq with h1 | h1
+        · exact hst.2 q h1
+        · exact hws q h1⟩
+    have hrest : StoreOk hs s.chain.fhs
+          (match lookup s.store.db c.target with
+            | some fid => (⟨{ s with store := { s.store with cache := c', db := dbCommit s.store.db ws } }, .ret fid, .db, [], none⟩ : Outcome)
+            | none => netBranch hs { s with store := { s.store with cache := c', db := dbCommit s.store.db ws } } c).st.store ∧
+        (∀ fid, (match lookup s.store.db c.target with
+            | some fid => (⟨{ s with store := { s.store with cache := c', db := dbCommit s.store.db ws } }, .ret fid, .db, [], none⟩ : Outcome)
+            | none => netBranch hs { s with store := { s.store with cache := c', db := dbCommit s.store.db ws } } c).result = .ret fid →
+          Good hs s.chain.fhs c.target fid) ∧
+        (match lookup s.store.db c.target with
+            | some fid => (⟨{ s with store := { s.store with cache := c', db := dbCommit s.store.db ws } }, .ret fid, .db, [], none⟩ : Outcome)
+            | none => netBranch hs { s with store := { s.store with cache := c', db := dbCommit s.store.db ws } } c).st.chain = s.chain := by
+      cases hl : lookup s.store.db c.target with
+      | some fid =>
+        refine ⟨hst1, fun f h => ?_, rfl⟩
+        simp only [Result.ret.injEq] at h
+        subst h
+        exact hst.2 (c.target, fid) (lookup_mem hl)
+      | none =>
+        simp only [netBranch_eq]
+        have h := afterMiss_ok hs { s with store := { s.store with cache := c', db := dbCommit s.store.db ws } } c hne hst1
+        exact ⟨h.1, h.2, afterMiss_chain hs _ c⟩
+    cases o with
+    | val v =>
+      refine ⟨⟨fun e he => hst.1 e (hitems e he), hst.2⟩, fun fid h => ?_, rfl⟩
+      simp only [Result.ret.injEq] at h
+      subst h
+      obtain ⟨e, hmem, hk, hvid⟩ := hval rfl
+      have := hst.1 e hmem
+      rw [hk, hvid] at this
+      exact this
+    | _ => exact hrest
+
+theorem cachePut_ok (hs : Hashing) (fhs : List Nat) (st : Store) (k v z : Nat)
+    (hst : ∀ e ∈ st.cache.items, Good hs fhs e.key e.vid)
+    (hg : Good hs fhs k v) : ∀ e ∈ (cachePut st k v z).cache.items, Good hs fhs e.key e.vid := by
+  intro e he
+  rcases GetBlock.spec_put_items e he with h1 | h1
+  · exact hst e h1
+  · subst h1; exact hg
+
+/-- whatever pairs are offered (stale, misaligned, anything): only matching ones enter the cache -/
+theorem cacheFillChecked_ok (hs : Hashing) (fhs : List Nat) :
+    ∀ (kvs : List (Nat × Nat × Nat)) (st : Store), (∀ e ∈ st.cache.items, Good hs fhs e.key e.vid) →
+      ∀ e ∈ (cacheFillChecked hs fhs st kvs).cache.items, Good hs fhs e.key e.vid := by
+  intro kvs
+  induction kvs with
+  | nil => intro st h; exact h
+  | cons x rest ih =>
+    intro st h
+    obtain ⟨k, v, z⟩ := x
+    simp only [cacheFillChecked]
+    by_cases hg : goodB hs fhs k v = true
+    · simp only [hg, ↓reduceIte]
+      exact ih _ (cachePut_ok hs fhs st k v z h ((goodB_iff hs fhs k v).mp hg))
+    · simp only [hg]
+      exact ih _ h
+
+theorem cacheFillChecked_db (hs : Hashing) (fhs : List Nat) :
+    ∀ (kvs : List (Nat × Nat × Nat)) (st : Store), (cacheFillChecked hs fhs st kvs).db = st.db := by
+  intro kvs
+  induction kvs with
+  | nil => intro st; rfl
+  | cons x rest ih =>
+    intro st
+    obtain ⟨k, v, z⟩ := x
+    simp only [cacheFillChecked]
+    split
+    · rw [ih]; rfl
+    · rw [ih]
+
 /-! ### histories -/
 
 /-- the headers a `recommit` installs leave every stored filter's pair of
@@ -659,17 +775,25 @@ def stableB (s : State) (newfhs : List Nat) : Bool :=
 def opsStable (hs : Hashing) : State → List Op → Bool
   | _, [] => true
   | s, .recommit h nf :: os => stableB s (s.chain.fhs.take h ++ nf) && opsStable hs (step hs s (.recommit h nf)) os
+  -- concurrent writers (the batch writer) persist filters that match the committed headers
+  | s, .getW c ws :: os => ws.all (fun p => goodB hs s.chain.fhs p.1 p.2) && opsStable hs (step hs s (.getW c ws)) os
   | s, o :: os => opsStable hs (step hs s o) os
 
 def Inv (hs : Hashing) (s : State) : Prop := 1 ≤ s.chain.fhs.length ∧ StoreOk hs s.chain.fhs s.store
 
 theorem step_inv (hs : Hashing) (s : State) (o : Op) (h : Inv hs s)
-    (hstab : ∀ hh nf, o = .recommit hh nf → stableB s (s.chain.fhs.take hh ++ nf) = true) : Inv hs (step hs s o) := by
+    (hstab : ∀ hh nf, o = .recommit hh nf → stableB s (s.chain.fhs.take hh ++ nf) = true)
+    (hw : ∀ c ws, o = .getW c ws → ∀ p ∈ ws, Good hs s.chain.fhs p.1 p.2) : Inv hs (step hs s o) := by
   cases o with
   | get c =>
     simp only [step]
     rw [Inv, getCFilter_chain]
     exact ⟨h.1, (getCFilter_ok hs s c h.1 h.2).1⟩
+  | getW c ws =>
+    simp only [step]
+    obtain ⟨g1, _, g3⟩ := getCFilterW_ok id hs s c ws h.1 h.2 (hw c ws rfl)
+    rw [Inv, g3]
+    exact ⟨h.1, g1⟩
   | restart =>
     simp only [step]
     exact ⟨h.1, ⟨fun e he => by simp at he, h.2.2⟩⟩
@@ -694,11 +818,15 @@ theorem run_inv (hs : Hashing) (ops : List Op) : ∀ (s : State), Inv hs s → o
     intro s h hst
     simp only [run]
     cases o with
-    | get c => exact ih _ (step_inv hs s _ h (fun _ _ hx => by cases hx)) (by simpa [opsStable] using hst)
-    | restart => exact ih _ (step_inv hs s _ h (fun _ _ hx => by cases hx)) (by simpa [opsStable] using hst)
+    | get c => exact ih _ (step_inv hs s _ h (fun _ _ hx => by cases hx) (fun _ _ hx => by cases hx)) (by simpa [opsStable] using hst)
+    | restart => exact ih _ (step_inv hs s _ h (fun _ _ hx => by cases hx) (fun _ _ hx => by cases hx)) (by simpa [opsStable] using hst)
+    | getW c ws =>
+      simp only [opsStable, Bool.and_eq_true, List.all_eq_true] at hst
+      exact ih _ (step_inv hs s _ h (fun _ _ hx => by cases hx)
+        (fun a b hx p hp => by cases hx; exact (goodB_iff hs _ _ _).mp (hst.1 p hp))) hst.2
     | recommit hh nf =>
       simp only [opsStable, Bool.and_eq_true] at hst
-      exact ih _ (step_inv hs s _ h (fun a b hx => by cases hx; exact hst.1)) hst.2
+      exact ih _ (step_inv hs s _ h (fun a b hx => by cases hx; exact hst.1) (fun _ _ hx => by cases hx)) hst.2
 
 theorem init_inv (hs : Hashing) (cap tip : Nat) (fhs : List Nat) (persist : Bool) (h : 1 ≤ fhs.length) :
     Inv hs (init cap tip fhs persist) :=
